@@ -299,7 +299,7 @@ void do_plan(int tier)
   std::string text;
   if (st->mode == 2) {
     unsigned n = sim_plan(tier ? 200 : 64);
-    static const char RAW[] = "<>/=\"'!-? \n\\ab_1.\0\xff&x";
+    static const char RAW[] = "<>/=\"'!-? \n\\ab_1.\0\xff&x\t\r\v\f";
     for (unsigned i = 0; i < n; i++)
       text += RAW[sim_plan(sizeof RAW - 1)];
     st->fault = A16_RAW;
@@ -377,7 +377,22 @@ void do_plan(int tier)
     } else if (k < 7 && n) {
       st->fault = A16_FAULT_FLIP;
       st->fault_arg = off % (long)n;
-      st->bytes[(size_t)st->fault_arg] ^= (unsigned char)(1 + sim_plan(255));
+      if (sim_plan(3) == 0) {
+        // a white-space byte (the nearest one at or after the offset) becomes one of the other bytes C calls white space or
+        // a look-alike: vertical tab, form feed, NEL, no-break space
+        size_t at = (size_t)st->fault_arg;
+        for (size_t k2 = 0; k2 < n; k2++) {
+          unsigned char c = st->bytes[(at + k2) % n];
+          if (c == ' ' || c == '\n' || c == '\t' || c == '\r') {
+            at = (at + k2) % n;
+            break;
+          }
+        }
+        static const unsigned char odd[] = {0x0b, 0x0c, 0x85, 0xa0, 0x1c, 0x7f};
+        st->fault_arg = (long)at;
+        st->bytes[at] = odd[sim_plan(sizeof odd)];
+      } else
+        st->bytes[(size_t)st->fault_arg] ^= (unsigned char)(1 + sim_plan(255));
     } else if (k < 9 && n) {
       st->fault = A16_FAULT_DROP;
       st->fault_arg = off % (long)n;
